@@ -7,17 +7,18 @@
 # what to use when nothing else is building against /repo.)
 set -u
 patch="$1"; shift
-WT=/tmp/mutrun_repo
+TAG="${MUTRUN_TAG:-}"   # a second instance may run beside the first one with its own scratch copies
+WT=/tmp/mutrun_repo$TAG
 git -C /repo worktree remove --force $WT 2>/dev/null
-git -C /repo worktree add -q $WT HEAD || exit 2
+git -C /repo worktree add -q $WT HEAD || { sleep 3; git -C /repo worktree prune; git -C /repo worktree add -q $WT HEAD; } || { echo "WORKTREE-ADD-FAILED"; exit 2; }
 ( cd $WT && git apply "$patch" ) || { echo "PATCH DOES NOT APPLY"; git -C /repo worktree remove --force $WT; exit 2; }
-H=/verif/build/mutrun_harness
+H=/verif/build/mutrun_harness$TAG
 rm -rf $H; mkdir -p $H; cp -r /verif/harness/src /verif/harness/Cargo.toml /verif/harness/Cargo.lock /verif/harness/.cargo $H/
 cp -r /verif/harness/np $H/
 sed -i "s#path = \"/repo\"#path = \"$WT\"#" $H/Cargo.toml $H/np/Cargo.toml
 cd /verif
 for p in "$@"; do
   echo "== $p"
-  SPECS_REPO=$WT VERIF_HARNESS=$H VERIF_TARGET=/verif/build/mutrun-target VERIF_REPLAYS=/verif/build/mutrun-replays VERIF_EVIDENCE=/verif/build/mutrun-evidence timeout 1200 bin/check "$p" --tier quick 2>&1 | grep -E "VIOLATION|KNOWN|error|Traceback" | head -5
+  SPECS_REPO=$WT VERIF_HARNESS=$H VERIF_TARGET=/verif/build/mutrun-target$TAG VERIF_REPLAYS=/verif/build/mutrun-replays$TAG VERIF_EVIDENCE=/verif/build/mutrun-evidence$TAG timeout 1200 bin/check "$p" --tier quick 2>&1 | grep -E "VIOLATION|KNOWN|error|Traceback" | head -5
 done
 git -C /repo worktree remove --force $WT
